@@ -18,7 +18,12 @@ def run(tier, replay=None):
                                                   timeout=1200, workers=8)
     for m in reg_mism:
         run.mismatch({"kind": "registry: " + m["mismatch"]["what"]}, m)
-    run.extra = {"registry_histories": len(reg_cases)}
+    # ... and which reader a file gets (ConfigFormat.tla: by the last extension alone, case-sensitively)
+    fmt_cases, fmt_mism, _, _ = C.emit_and_replay(run, "MC_ConfigFormat", "MC_ConfigFormat.cfg", "c14_format", ["cfgformat"],
+                                                  timeout=600, workers=2)
+    for m in fmt_mism:
+        run.mismatch({"kind": "format: " + m["mismatch"]["what"]}, m)
+    run.extra = {"registry_histories": len(reg_cases), "file_name_cases": len(fmt_cases)}
     run.evaluations = len(cases) * 4
     run.nontrivial = sum(1 for c in cases if c["class"] != "loaded")
     classes = {c["class"] for c in cases}
